@@ -9,7 +9,10 @@ static int digit_value (int c) {
   return (((c)<='9') ? ((c) - '0') : ((sexp_tolower(c) - 'a') + 10));
 }
 
-sexp json_read (sexp ctx, sexp self, sexp in);
+/* nested arrays/objects recurse on the C stack: refuse absurd depths instead of overflowing it */
+#define JSON_MAX_DEPTH 1000
+
+sexp json_read (sexp ctx, sexp self, sexp in, int depth);
 
 sexp sexp_json_read_exception (sexp ctx, sexp self, const char* msg, sexp in, sexp ir) {
   sexp res;
@@ -188,7 +191,7 @@ sexp json_read_string (sexp ctx, sexp self, sexp in) {
   return res;
 }
 
-sexp json_read_array (sexp ctx, sexp self, sexp in) {
+sexp json_read_array (sexp ctx, sexp self, sexp in, int depth) {
   sexp_gc_var2(res, tmp);
   sexp_gc_preserve2(ctx, res, tmp);
   int comma = 1, ch;
@@ -214,7 +217,7 @@ sexp json_read_array (sexp ctx, sexp self, sexp in) {
     } else if (!isspace(ch)) {
       if (comma) {
         sexp_push_char(ctx, ch, in);
-        tmp = json_read(ctx, self, in);
+        tmp = json_read(ctx, self, in, depth);
         if (sexp_exceptionp(tmp)) {
           res = tmp;
           break;
@@ -231,7 +234,7 @@ sexp json_read_array (sexp ctx, sexp self, sexp in) {
   return res;
 }
 
-sexp json_read_object (sexp ctx, sexp self, sexp in) {
+sexp json_read_object (sexp ctx, sexp self, sexp in, int depth) {
   sexp_gc_var2(res, tmp);
   sexp_gc_preserve2(ctx, res, tmp);
   int comma = 1, ch;
@@ -256,7 +259,7 @@ sexp json_read_object (sexp ctx, sexp self, sexp in) {
     } else if (!isspace(ch)) {
       if (comma) {
         sexp_push_char(ctx, ch, in);
-        tmp = json_read(ctx, self, in);
+        tmp = json_read(ctx, self, in, depth);
         if (sexp_exceptionp(tmp)) {
           res = tmp;
           break;
@@ -270,7 +273,7 @@ sexp json_read_object (sexp ctx, sexp self, sexp in) {
           res = sexp_json_read_exception(ctx, self, "missing colon in json object", in, sexp_make_character(ch));
           break;
         }
-        sexp_cdr(tmp) = json_read(ctx, self, in);
+        sexp_cdr(tmp) = json_read(ctx, self, in, depth);
         if (sexp_exceptionp(sexp_cdr(tmp))) {
           res = sexp_cdr(tmp);
           break;
@@ -287,17 +290,23 @@ sexp json_read_object (sexp ctx, sexp self, sexp in) {
   return res;
 }
 
-sexp json_read (sexp ctx, sexp self, sexp in) {
+sexp json_read (sexp ctx, sexp self, sexp in, int depth) {
   sexp res;
   int ch = ' ';
   while (isspace(ch))
     ch = sexp_read_char(ctx, in);
   switch (ch) {
   case '{':
-    res = json_read_object(ctx, self, in);
+    if (depth >= JSON_MAX_DEPTH)
+      res = sexp_json_read_exception(ctx, self, "json nesting too deep", in, SEXP_NULL);
+    else
+      res = json_read_object(ctx, self, in, depth + 1);
     break;
   case '[':
-    res = json_read_array(ctx, self, in);
+    if (depth >= JSON_MAX_DEPTH)
+      res = sexp_json_read_exception(ctx, self, "json nesting too deep", in, SEXP_NULL);
+    else
+      res = json_read_array(ctx, self, in, depth + 1);
     break;
   case '"':
     res = json_read_string(ctx, self, in);
@@ -332,7 +341,7 @@ sexp json_read (sexp ctx, sexp self, sexp in) {
 
 sexp sexp_json_read (sexp ctx, sexp self, sexp_sint_t n, sexp in) {
   sexp_assert_type(ctx, sexp_iportp, SEXP_IPORT, in);
-  return json_read(ctx, self, in);
+  return json_read(ctx, self, in, 0);
 }
 
 
